@@ -24,6 +24,7 @@ META = {
     "assumptions": [],
 }
 META["claim"] += " " + 'Also: mixed-case subprotocols; a shared header list reused across connections.'
+META["claim"] += " " + 'Round 3b: WebSocketApp reconnect handshakes judged against the options current at that moment (callable header, app.cookie/app.header changed between attempts); jar cookies plus cookie option.'
 
 try:
     from websockets.server import ServerProtocol as _WsServer
